@@ -22,9 +22,9 @@ import (
 //
 // Full product: LHS form x with-wrapping x object kind x two body operations.
 
-var lhsFormsF = []string{"var k", "k", "r[t(i++)]", "t(r).k", "z", "var z", "u"}
+var lhsFormsF = []string{"var k", "k", "r[t(i++)]", "t(r).k", "z", "var z", "u", "var k = t(init)"}
 var withKindsF = []string{"none", "with-empty", "with-z"}
-var objKindsF = []string{"xy", "xyw", "own-xy+proto-w", "own-x+proto-xy", "array2", "string2"}
+var objKindsF = []string{"xy", "xyw", "own-xy+proto-w", "own-x+proto-xy", "array2", "string2", "empty"}
 var bodyOpsF = []string{"none", "delete-y", "delete-x", "continue-first", "break-second", "scope-gains-z", "scope-loses-z", "eval-var-z"}
 
 func bodyOpF(p *js.Program, k int) js.Stmt {
@@ -70,6 +70,8 @@ func programF(lhs, with, objKind, op1, op2 int) *js.Program {
 		setup = []js.Stmt{assign(objV, &js.ArrayLit{Elems: []js.Expr{str("p"), str("q")}})}
 	case 5:
 		setup = []js.Stmt{assign(objV, str("ab"))}
+	case 6:
+		setup = []js.Stmt{assign(objV, &js.ObjectLit{})}
 	}
 	r := id("r")
 	state := func(tag string) js.Stmt {
@@ -94,6 +96,10 @@ func programF(lhs, with, objKind, op1, op2 int) *js.Program {
 		loop.Var = "z"
 	case 6:
 		loop.LHS = id("u")
+	case 7:
+		// 12.6.4, production with VariableDeclarationNoIn: the initialiser runs once, before the object expression
+		loop.Var = "k"
+		loop.VarInit = tp("init", js.N(7))
 	}
 	var st js.Stmt = loop
 	scopeInit := &js.ObjectLit{}
